@@ -77,7 +77,7 @@ class Ed:
         self.dirty = set()
 
 
-def gen_history(rng, n_events, p_outside=0.08, p_raw=0.0, calm=False):
+def gen_history(rng, n_events, p_outside=0.08, p_raw=0.0, calm=False, batches=False):
     files = INSIDE
     disk = {}
     for f in files:
@@ -134,7 +134,7 @@ def gen_history(rng, n_events, p_outside=0.08, p_raw=0.0, calm=False):
             evs.append("x" + g)
         else:
             items = []
-            for g in rng.sample(INSIDE, rng.choice([1, 1, 1, 2])):
+            for g in rng.sample(INSIDE, rng.choice([1, 2, 2, 3]) if batches else 1):
                 if calm and g in ed.dirty:
                     continue
                 if g in ed.disk:
@@ -172,7 +172,7 @@ SEEDS = [
     "A a=u1,p=d1 op;oa;ca=cu1;sa;xp;wMa=u1",
     "A a=l,p=lu1,q=c op;oa;ca=u1;sa;xp;oq",
     "A a=rbl wCb=c;wDb;wCb=d1;oa;ca=rblu1;sa;xa",
-    "A a=rbrcl wCb=c;wCc=c;wDb+Dc",
+    "A a=rbrcl wCb=c;wCc=c;wDb;wDc",
     "A a=ls,b=u1 oa;ca=l;sa;ca=ls;sa;ca=ld1;sa;xa",
     "A - wCa=l;oa;ca=ls;sa;wDa;wCa=l",
     "A a=d1,b=u1,c=u1u2 wDa;wCa=d2;wMa=d1d2;wDa",
@@ -188,6 +188,16 @@ def gen_conformant(rng, tier):
         calm = m < 0.35                      # stays mostly inside the guard of C08_incremental_eq_fresh
         init, evs = gen_history(rng, rng.choice([3, 5, 8, 10, 12, 15]), p_outside=0.0 if calm or m < 0.8 else 0.15, calm=calm)
         out.append(case_of("A" if rng.random() < 0.85 else "E", init, evs))
+    return out
+
+
+def gen_batch(rng, tier):
+    """watched notifications naming several files (outside the proved fragment: exploratory)"""
+    n = {"quick": 300, "thorough": 8000, "search": 200}[tier]
+    out = ["A a=rbrcl wCb=c+Cc=c;wDb+Dc", "A a=u1u2 wCb=d1+Cc=d2;wMb=c+Dc"]
+    for k in range(n):
+        init, evs = gen_history(rng, rng.choice([3, 6, 10]), p_outside=0.0, calm=rng.random() < 0.4, batches=True)
+        out.append(case_of("A", init, evs))
     return out
 
 
@@ -230,6 +240,7 @@ def nontrivial(case):
 LEGS = [
     Leg("c08.history", gen_conformant, shrink=shrink, nontrivial=nontrivial, per_case_s=5.0),
     Leg("c08.raw", gen_raw, shrink=shrink, nontrivial=nontrivial, per_case_s=5.0),
+    Leg("c08.batch", gen_batch, shrink=shrink, nontrivial=nontrivial, per_case_s=5.0, deciding=False),
 ]
 
 TRUSTED = vlib.TRUSTED_COMMON + [
